@@ -32,7 +32,7 @@ def main():
             continue
         c = dict(property_id=pid,
                  quick_cmd="./bin/check %s --tier quick" % pid,
-                 thorough_cmd="./bin/check %s --tier thorough" % pid,
+                 thorough_cmd="./bin/check %s --tier thorough" % pid + (" --growth quick" if any(pid in sv for _, sv in GROWTH.values()) else ""),
                  evidence_file="evidence/%s.json" % pid,
                  replay_cmd_template="./bin/check %s --replay {path}" % pid,
                  engine=meta["engine"],
